@@ -1,6 +1,7 @@
 package distributed
 
 import (
+	"bytes"
 	"sync"
 
 	"github.com/golang/protobuf/proto"
@@ -69,7 +70,16 @@ func (t *topicsState) dump(event *api.StateBroadcastEvent) {
 	})
 }
 
+// isTopicName tells whether topic can key the retained store: a topic name, not a filter. Entries are looked up by
+// wildcard match when remote state is merged, so a key containing a wildcard character could never be replicated.
+func isTopicName(topic []byte) bool {
+	return !bytes.ContainsAny(topic, "+#")
+}
+
 func (t *topicsState) Set(message *packet.Publish) error {
+	if !isTopicName(message.Topic) {
+		return ErrInvalidPayload
+	}
 	t.mu.Lock()
 	defer t.mu.Unlock()
 	msg := &api.RetainedMessage{
@@ -112,6 +122,9 @@ func (t *topicsState) set(topic []byte, msg *api.RetainedMessage) error {
 }
 
 func (t *topicsState) Delete(topic []byte) error {
+	if !isTopicName(topic) {
+		return ErrInvalidPayload
+	}
 	t.mu.Lock()
 	defer t.mu.Unlock()
 	msg := &api.RetainedMessage{
